@@ -105,7 +105,8 @@ class RefActNorm:
             w.ratio(float((m / tol).max()), 1.0, 'actnorm init mean')
             vb, vu = yy.var(0, ddof=0), yy.var(0, ddof=1)
             dv = np.minimum(np.abs(vb - 1.0), np.abs(vu - 1.0))
-            tol = tol + 1e-5 / np.maximum(sx, 1e-300)      # room for a stabilising epsilon of up to ~5e-6 next to the std
+            # room for a stabilising epsilon of a few 1e-6, next to the std or inside the square root
+            tol = tol + 1e-5 / np.maximum(sx, 1e-300) + 5e-6 / np.maximum(sx ** 2, 1e-300)
             if (dv > 2 * tol).any():
                 i = int((dv / tol).argmax())
                 raise Violation("actnorm_init_batch_not_normalised",
@@ -444,11 +445,11 @@ class C14World(World):
         self.monitored, self.expected = [], []
         self.lmode = []
         for mod in self.root.modules():
-            if type(mod) is ActNorm:
+            if isinstance(mod, ActNorm):
                 ref = RefActNorm(mod)
                 if fresh_model:
                     ref.initialized = False      # "initialises on its first training-mode forward pass": never born initialised
-            elif type(mod) is BatchNorm:
+            elif isinstance(mod, BatchNorm):
                 main = self.cfg["layer"] == "batchnorm" and self.cfg["nest"] not in ("maf", "realnvp") and \
                     (self.cfg["nest"] != "two" or mod is self._main_layer())
                 # the layer this run constructed itself is held to the constructor arguments of the configuration; a
@@ -468,7 +469,7 @@ class C14World(World):
 
         want = ActNorm if self.cfg["layer"] == "actnorm" else BatchNorm
         for mod in self.root.modules():
-            if type(mod) is want:
+            if isinstance(mod, want):
                 return mod
         return None
 
@@ -521,8 +522,11 @@ class C14World(World):
         may_params = init_pass
         may_buffers = direction == "forward" and training
         allowed = ref.may_write(training, direction)
-        if ref.kind == "batchnorm" and direction == "inverse" and training:
-            raise Violation("batchnorm_inverse_offered_in_training", "inverse returned a result in training mode")
+        if ref.kind == "batchnorm" and direction == "inverse" and bool(layer.training):
+            # "offers its inverse only there": judged by the layer's own flag at the time of the call (a flow may run
+            # its layers in evaluation mode while sampling and restore them); whether mode switches reach the layer is
+            # judged through the forward passes
+            raise Violation("batchnorm_inverse_offered_in_training", "inverse returned a result while the layer was in training mode")
         bad = sorted(k for k in set(after[0]) | set(before[0]) if after[0].get(k) != before[0].get(k)) if not may_params else []
         bad += sorted(k for k in set(after[1]) | set(before[1]) if after[1].get(k) != before[1].get(k)) if not may_buffers else []
         if bad:
@@ -686,15 +690,27 @@ class C14World(World):
             raise
         except Exception as e:   # noqa: BLE001
             log.add("raised", type(e).__name__)
-            uninit_eval = any(r.kind == "actnorm" and not r.initialized and not self.lmode[i]
-                              for i, (_, r) in enumerate(self.monitored))
-            if judged and not self._refusal_expected(direction) and not uninit_eval:
+            if judged and self._failure_is_judged(direction):
                 raise Violation("normalisation_call_failed", "%s raised %s: %s" % (direction, type(e).__name__, str(e)[:200]))
             return True
         if self._is_flow() and direction == "inverse":
             log.add("ok", "sampled")      # sampled values stay out of the event log: a library may sample from a generator of its own
         else:
             log.add("ok", *res)
+        return False
+
+    def _failure_is_judged(self, direction):
+        """The property obliges two kinds of call to succeed: a training-mode forward pass through the layers (that
+        is where ActNorm initialises and BatchNorm uses batch statistics), and BatchNorm's inverse in evaluation mode
+        once it has statistics.  What a layer does with anything else (evaluation before initialisation, an inverse
+        before initialisation, evaluation before any training batch ...) is its own business."""
+        layer_dir = direction
+        if self.cfg["nest"] == "inv":
+            layer_dir = "inverse" if direction == "forward" else "forward"
+        if layer_dir == "forward":
+            return bool(self.mode) and all(self.lmode)
+        if not self.mode and not any(self.lmode) and self.trained > 0 and self.restarts == 0:
+            return all(r.kind != "actnorm" or r.initialized for _, r in self.monitored)
         return False
 
     def _refusal_expected(self, direction):
@@ -730,7 +746,12 @@ class C14World(World):
         if self.await_next_train:
             self.probes["restart_between_init_and_next_training_forward"] += 1
             self.await_next_train = False
-        fresh = build(self.cfg, int(op["seed"]))
+        try:
+            fresh = build(self.cfg, int(op["seed"]))
+        except Exception as e:   # noqa: BLE001 - a constructor that refuses under this seed: no restart
+            self.probes["restart_skipped_constructor_refused"] += 1
+            log.add("restart_skipped", type(e).__name__)
+            return
         try:
             fresh.load_state_dict(self.load_bytes(source), strict=True)
         except Exception as e:   # noqa: BLE001
